@@ -312,6 +312,29 @@ def work(part):
     return n, counts, list(viol.values())
 
 
+def delimiter_exhaustion():
+    """Texts that contain (or end in a prefix of) every dollar-quote
+    delimiter with a tag of length 0, 1 and the first k tags of length 2:
+    whatever search order a producer uses, it is driven through its k-th
+    candidate.  Also with `'` and `"` so that the string-constant printer
+    must fall back to dollar quoting."""
+    hexd = '0123456789abcdef'
+    one = ['$$'] + [f'${c}$' for c in 'abcdef']
+    two_a = [f'${a}{b}$' for a in 'abcdef' for b in hexd]      # letter first
+    two_b = [f'${b}{a}$' for a in 'abcdef' for b in hexd]      # letter last
+    out = []
+    for k in range(0, len(one) + 1):
+        base = ' '.join(one[:k])
+        out += [base, base + '$', base.replace(' ', ''), base + ' $']
+    full = ' '.join(one)
+    for seq in (two_a, two_b, [x for p in zip(two_a, two_b) for x in p]):
+        for k in (1, 2, 3, 6, 7, 16, 17, 40, 96, len(seq)):
+            t = full + ' ' + ' '.join(seq[:k])
+            out += [t, t + '$', t + ' $' + seq[min(k, len(seq) - 1)][1]]
+    out += [x + q for x in list(out) for q in ("'\"",)]
+    return out
+
+
 def keyword_seeds():
     _setup()
     P = _S['P']
@@ -326,6 +349,7 @@ def keyword_seeds():
     for k in sorted(kws):
         out += [k, k.upper(), k.capitalize(), k + '1', '1' + k, k + ' x',
                 k + '$', '_' + k]
+    out += delimiter_exhaustion()
     out += ['__type__', '__std__', '__subject__', 'a::b', '@a', '@a b',
             'a b', 'a.b', 'a-b', 'a`b', 'é', 'É', '日本', 'x' * 70, '0', '00',
             '1a', 'A', 'aB', '²', 'a²', '$a', 'a$a', '"', '""']
